@@ -211,3 +211,28 @@ def run_states(module, cfg, work, workers=NCPU, timeout=3600):
     res = parse_counts(out)
     res.update(ok=ok, out=out)
     return states, res
+
+
+def run_tlaps(module, work, timeout=180):
+    """TLAPS proof check of spec/proofs/<module> (theorems over all integers; nothing here depends on the library, so a
+    missing or failing prover is recorded, never an alarm).  Returns dict(status, obligations, wall)."""
+    pdir = os.path.join(SPEC_DIR, "proofs")
+    exe = shutil.which("tlapm") or "/opt/veriftools/tlapm/bin/tlapm"
+    if not os.path.exists(exe):
+        return {"status": "unavailable", "obligations": 0, "wall": 0.0}
+    t0 = time.time()
+    cache = os.path.join(work, "tlaps-cache")
+    try:
+        p = subprocess.run([exe, "--toolbox", "0", "0", "--cache-dir", cache, module], cwd=pdir,
+                           stdout=subprocess.PIPE, stderr=subprocess.STDOUT, text=True, timeout=timeout)
+        out = p.stdout
+    except Exception as e:   # timeout, exec failure
+        return {"status": "error: %s" % type(e).__name__, "obligations": 0, "wall": round(time.time() - t0, 1)}
+    finally:
+        shutil.rmtree(cache, ignore_errors=True)
+    m = re.search(r"All (\d+) obligations? proved", out)
+    if m:
+        return {"status": "proved", "obligations": int(m.group(1)), "wall": round(time.time() - t0, 1)}
+    m = re.search(r"(\d+)/(\d+) obligations? failed", out)
+    return {"status": "failed" if m else "error", "obligations": int(m.group(2)) if m else 0,
+            "failed": int(m.group(1)) if m else 0, "wall": round(time.time() - t0, 1), "tail": out[-600:]}
